@@ -170,6 +170,8 @@ pub fn run(parts: &[String]) -> String {
             "modorder" => { let b = unhex(arg); return format!("{} {} {}", h(&fq(&b).to_bytes_le()), h(&fr(&b).to_bytes_le()), h(&fp(&b).to_bytes_le())) }
             "fout" => { return show(&st.pop().expect("stack")) }
             "const" => return crate::cmds::constant(arg),
+            #[cfg(feature = "ark")]
+            "bls" => return crate::bls::run(arg),
             _ => { if let Some(s) = crate::cmds::field_generic(op, arg, &mut st) { return s; } }
         }
     }
